@@ -85,6 +85,7 @@ class Ref:
         self.template_ns_name = "Template"
         self.fuel = 20000
         self.max_depth = 30
+        self.max_len = 1000000
         self.cycle_marker = None   # if set: a re-entered template yields this marker instead of raising Cycle
         self.full_body = set()     # templates whose body is expanded fully (flagged templates on non-en wikis)
         # C13 only (both default to the behaviour every other user of this class relies on):
@@ -178,6 +179,10 @@ class Ref:
                             return self.cycle_marker
                     self.hit("template-expanded")
                     t = self.ev(self.lib[name], ht, stack + (name,), full or name in self.full_body)
+                    if self.cycle_marker is not None and len(t) > self.max_len:
+                        # fuelled run on a branching cycle: the text doubles per level; give up instead of
+                        # exhausting the machine's memory (the caller treats it like spent fuel)
+                        raise FuelExhausted()
             t2 = nl(t)
             if t2 != t and from_hook and self.hook_verbatim:
                 self.hit("CLASS:template_fn-result-starts-with-list-marker")
